@@ -288,8 +288,7 @@ func selectSetForRecursion(ctx context.Context, scope *ReferenceScope, view *Vie
 		if scope.RecursiveCount == nil {
 			scope.RecursiveCount = new(int64)
 		}
-		atomic.AddInt64(scope.RecursiveCount, 1)
-		if scope.Tx.Flags.LimitRecursion < *scope.RecursiveCount {
+		if scope.Tx.Flags.LimitRecursion < atomic.AddInt64(scope.RecursiveCount, 1) {
 			return NewRecursionExceededLimitError(set.RHS, scope.Tx.Flags.LimitRecursion)
 		}
 	}
